@@ -218,8 +218,57 @@ def adapter_cases(ck, rng, n):
         x_cases.append(lit)
         x_j.append({"adapter": "LeraxToGymnaxEnv", "spec": spec, "stack": stack, "seed": seed, "actions": [a for a, _ in steps], "impl_reset": reset, "impl_steps[.., done, _, info]": outs})
         ck.case_seen(("l2x", idx, T)); ck.count("adapter:LeraxToGymnaxEnv")
+    # ---- LeraxToGymEnv as an object: whole operation histories on ONE adapter vs the state machine Lerax.AdapterSM
+    sm_cases, sm_j = [], []
+    for idx in range(n):
+        spec = random_tab(rng)
+        stack, asp, osp = random_stack(rng, spec, depth=int(rng.integers(0, 3)), allow=["Identity", "TimeLimit", "ClipReward", "TransformReward", "ClipAction", "RescaleAction"])
+        env = build_stack(TabEnv(spec), stack)
+        seeds = [0] + [int(x) for x in rng.integers(1, 2**30, size=2)]          # root i = jr.key(seeds[i]); root 0 is also the key of a new adapter
+        tree = KeyTree([jr.key(sd) for sd in seeds])
+        g = LeraxToGymEnv(env)
+        cur = ((0, 0),)
+        ops_lit, ops_j, outs, paths = [], [], [], []
+        n_ops = int(rng.integers(4, 11))
+        ck.current_case = {"spec": spec, "stack": stack, "adapter": "LeraxToGymEnv (operation history)", "seeds": seeds}
+        for t in range(n_ops):
+            u = rng.random()
+            if t == 0 or u < 0.25:
+                i = int(rng.integers(0, len(seeds))) if rng.random() < 0.7 else None
+                if i is not None:
+                    cur = ((0, i),)
+                sub, cur = cur + ((2, 1),), cur + ((2, 0),)
+                paths += subtree(sub, [2])
+                obs, info = g.reset(seed=seeds[i]) if i is not None else g.reset()
+                cnt, st = canon_state(g.state)
+                outs.append((cnt, st, obs_list(obs), 0.0, False, False, float(info["x"])))
+                ops_lit.append(f"(@OReset Q {'None' if i is None else '(Some ' + path_lit(((0, i),)) + ')'})")
+                ops_j.append(["reset", None if i is None else seeds[i]])
+                ck.count("sm:reset(seed=0)" if i == 0 else "sm:reset(seed)" if i is not None else "sm:reset()")
+            else:
+                a = rand_action(rng, asp)
+                a_in = np.asarray(a) if asp[0] == "disc" else np.asarray(a, dtype=float).reshape(env.action_space.shape)
+                sub, cur = cur + ((2, 1),), cur + ((2, 0),)
+                paths += subtree(sub, [4])
+                obs, rew, term, trunc, info = g.step(a_in)
+                cnt, st = canon_state(g.state)
+                outs.append((cnt, st, obs_list(obs), float(rew), bool(term), bool(trunc), float(info["x"])))
+                ops_lit.append(f"(@OStep Q {ql(a)})")
+                ops_j.append(["step", a])
+                ck.count("sm:step")
+        raw_lit, raw_json = rawtbl_lit(tree, paths)
+        sm_cases.append(f"Build_smcase {tab_lit(spec)} {raw_lit} {listl(wd_lit(d) for d in stack)} {path_lit(((0, 0),))} {listl(ops_lit)} {listl(imp_out_lit(*o) for o in outs)}")
+        sm_j.append({"adapter": "LeraxToGymEnv, one object", "spec": spec, "stack": stack, "operations": ops_j, "impl_outputs": outs})
+        n_resets = sum(1 for o in ops_j if o[0] == "reset")
+        ck.case_seen(("l2g-sm", idx, n_ops) if n_resets >= 2 else None)
     ck.current_case = None
     pre = "From Lerax Require Import Env Tab C01Check."
+    res = ck.run_coq_cases("C13Adapt", sm_cases, funcs=("agree_sm",), shard=25, case_type="smcase", preamble=pre + "\nFrom Lerax Require Import AdapterSM.")
+    if res is not None:
+        ck.classify({"agree": [], "holds": res["agree_sm"]}, sm_j, sig_of=lambda i: "C13/LeraxToGymEnv/object",
+                    relation="AdapterSM.l2g_trace (compatibility/gym.py:375-410)",
+                    what="a history of reset(seed)/reset()/step operations on one LeraxToGymEnv is not the native trajectory under the documented key chain "
+                         "(reset(seed=s) must re-key with jr.key(s) for every integer s, reset() must continue the chain)")
     res = ck.run_coq_cases("C13Adapt", gym_cases, funcs=("agree_gym", "holds_gym"), shard=25, case_type="C01Check.case", preamble=pre)
     if res is not None:
         ck.classify({"agree": res["agree_gym"], "holds": res["holds_gym"]}, gym_j, sig_of=lambda i: "C13/LeraxToGymEnv",
